@@ -547,5 +547,105 @@ theorem f20_wfspec : WFSpec f20P where
   uniq := by intro t ht u hu p _ _; simp [f20P] at ht hu; rw [ht, hu]
   srcNotProd := by intro t ht u hu; simp [f20P] at ht hu; subst ht; subst hu; decide
 
+
+/-! ### tasks that completed before the kill are not executed again -/
+
+/-- tasks outside `D` neither are in `D` nor write into the neighbourhood of a task in `D` -/
+def Avoids (P : Project) (g : G) (D : List Nat) : Prop :=
+  ∀ x spec, Project.find? P x = some spec → x ∉ D → ∀ t' ∈ D,
+    ∀ p ∈ spec.prods, nv p ∉ neighbours g t' ∧ ∀ spec', Project.find? P t' = some spec' → spec'.src ≠ p
+
+theorem protocol_rowsMatch_world (F : BodyFn) {P : Project} {g : G} (cfg : Cfg) (s : Sess) (spec : TaskSpec)
+    (hp : spec.persist = false) (hforce : cfg.force = false) (hm : RowsMatch P g s.w spec.id) :
+    (protocol F P g cfg s spec).w = s.w ∧ (protocol F P g cfg s spec).log = s.log := by
+  obtain ⟨hs, hne⟩ := runPhases_rowsMatch F P g cfg s spec hforce hm
+  have hnp := runPhases_ne_persisted F P g cfg s spec hp
+  unfold protocol
+  simp only []
+  rw [hs]
+  cases hr : (runPhases F P g cfg s spec).1 <;> simp only [processReport] <;>
+    first | exact absurd hr hne | exact absurd hr hnp | simp
+
+theorem noredo_loop (F : BodyFn) {P : Project} {g : G} (hbip : ∀ t, ∀ v ∈ neighbours g t, isTaskV v = true → v = tv t)
+    (hnp : ∀ t ∈ P.tasks, t.persist = false) (cfg : Cfg) (hforce : cfg.force = false) (D : List Nat) (hav : Avoids P g D) :
+    ∀ (picks : List Nat) (so : Sorter) (s : Sess) (so' : Sorter) (s' : Sess),
+      (∀ t' ∈ D, RowsMatch P g s.w t') → buildLoop F P g cfg so s picks = .ok (so', s') →
+      (∀ t' ∈ D, RowsMatch P g s'.w t') ∧ ∃ l, s'.log = s.log ++ l ∧ ∀ x ∈ l, x ∉ D
+  | [], so, s, so', s', hD, h => by
+    simp only [buildLoop, Except.ok.injEq, Prod.mk.injEq] at h
+    obtain ⟨_, rfl⟩ := h
+    exact ⟨hD, [], by simp, fun x hx => by cases hx⟩
+  | t :: ts, so, s, so', s', hD, h => by
+    unfold buildLoop at h
+    split at h
+    · cases h
+    split at h
+    · cases h
+    split at h
+    · cases h
+    rename_i spec hfind
+    have hspec := mem_of_find? hfind
+    have hid : spec.id = t := find?_id hfind
+    by_cases htD : t ∈ D
+    · -- rows match: not executed, nothing changes
+      obtain ⟨hw, hl⟩ := protocol_rowsMatch_world F cfg s spec (hnp spec hspec) hforce (by rw [hid]; exact hD t htD)
+      obtain ⟨h1, l, h2, h3⟩ := noredo_loop F hbip hnp cfg hforce D hav ts _ _ so' s' (by rw [hw]; exact hD) h
+      exact ⟨h1, l, by rw [h2, hl], h3⟩
+    · -- a task outside `D`: whatever it does, it leaves the neighbourhoods of `D` alone
+      have hD' : ∀ t' ∈ D, RowsMatch P g (protocol F P g cfg s spec).w t' := by
+        intro t' ht'
+        rw [← applySteps_protocol]
+        exact rowsMatch_frame P g t' (hbip t') _ _
+          (protocolSteps_avoid F P g cfg s spec t' (by rw [hid]; exact fun h => htD (h ▸ ht')) (hav t spec hfind htD t' ht'))
+          (hD t' ht')
+      obtain ⟨h1, l, h2, h3⟩ := noredo_loop F hbip hnp cfg hforce D hav ts _ _ so' s' hD' h
+      rcases protocol_log F P g cfg s spec with hl | hl
+      · exact ⟨h1, l, by rw [h2, hl], h3⟩
+      · refine ⟨h1, t :: l, by rw [h2, hl, hid]; simp, ?_⟩
+        intro x hx
+        rcases List.mem_cons.1 hx with rfl | hx
+        · exact htD
+        · exact h3 x hx
+
+/-- the tasks an accepted build loop has processed are closed under "produces something in my neighbourhood" -/
+theorem avoids_of_loop (F : BodyFn) {P : Project} {cfg cfg0 : Cfg} {g : G} {marks : List Nat}
+    (hdag : createDag P cfg0 = .ok (g, marks)) (hs : WFSpec P) (so so' : Sorter) (s s' : Sess) (done : List Nat)
+    (hso : Sorter.fromDag g isTaskV (prioFn P) = .ok so) (hb : buildLoop F P g cfg so s done = .ok (so', s')) :
+    Avoids P g done := by
+  intro x spec hf hx t' ht' p hpp
+  obtain ⟨pre1, pre2, rfl⟩ := List.append_of_mem ht'
+  obtain ⟨marks', hdag'⟩ := createDag_cfg P cfg0 cfg g marks hdag
+  have hspec := mem_of_find? hf
+  have hid : spec.id = x := find?_id hf
+  have hg := createDag_graph P cfg0 g marks hdag
+  have hne : t' ≠ x := fun h => hx (h ▸ ht')
+  have eprod : (tv x, nv p) ∈ g.edges := by
+    rw [hg, ← hid]; exact modifyDag_mono P _ _ ((baseGraph_edges P spec hspec).2 p hpp)
+  refine ⟨?_, ?_⟩
+  · intro hmem
+    unfold neighbours at hmem
+    simp only [List.mem_append, List.mem_singleton] at hmem
+    rcases hmem with (h1 | h1) | h1
+    · have e2 : (nv p, tv t') ∈ g.edges := (mem_preds_iff g _ _).1 h1
+      have hanc := producer_taskAnc g x t' p eprod e2 (Ne.symm hne)
+      have hin := C01_order F P cfg g marks' so so' s s' _ hdag' hso hb pre1 t' pre2 rfl x hanc
+      exact hx (by simp [hin])
+    · exact tv_ne_nv t' p h1.symm
+    · have e2 : (tv t', nv p) ∈ g.edges := (mem_succs_iff g _ _).1 h1
+      rw [hg] at e2
+      rcases modifyDag_inv P _ _ e2 with hb2 | hb2
+      · obtain ⟨y, hy, hcase⟩ := baseGraph_inv P _ hb2
+        rcases hcase with ⟨d, _, heq⟩ | ⟨q, hq, heq⟩
+        · exact tv_ne_nv t' d (by simpa using congrArg Prod.fst heq)
+        · have h1' : tv t' = tv y.id := by simpa using congrArg Prod.fst heq
+          have h2' : nv p = nv q := by simpa using congrArg Prod.snd heq
+          have hy' : y = spec := hs.uniq y hy spec hspec p (by rw [nv_inj h2']; exact hq) hpp
+          apply hne
+          rw [← hid, ← hy']
+          exact tv_inj h1'
+      · simp [isTaskV_nv] at hb2
+  · intro spec' hf' heq
+    exact hs.srcNotProd spec' (mem_of_find? hf') spec hspec (heq ▸ hpp)
+
 end Engine
 end Pytask
